@@ -22,8 +22,11 @@ const (
 
 var (
 	// instants are generated inside [genLo, genHi]; tables are walked over [walkLo, walkHi]
-	genLo  = time.Date(1970, 1, 1, 0, 0, 0, 0, time.UTC).Unix()
-	genHi  = time.Date(2037, 12, 31, 23, 59, 59, 0, time.UTC).Unix()
+	genLo = time.Date(1970, 1, 1, 0, 0, 0, 0, time.UTC).Unix()
+	genHi = time.Date(2037, 12, 31, 23, 59, 59, 0, time.UTC).Unix()
+	// fixed offsets (no table) may be asked about any instant of 1800..2400
+	farLo  = time.Date(1800, 1, 1, 0, 0, 0, 0, time.UTC).Unix()
+	farHi  = time.Date(2400, 12, 31, 23, 59, 59, 0, time.UTC).Unix()
 	walkLo = genLo - marginBack - 30*day
 	walkHi = genHi + marginAhead + 30*day
 )
@@ -152,7 +155,7 @@ func coqZ(v int64) string {
 // [t - marginBack, t + marginAhead].
 func (z *zoneTab) coqFor(t int64) string {
 	lo, hi := t-marginBack, t+marginAhead
-	if lo < walkLo || hi > walkHi {
+	if !z.Fixed && (lo < walkLo || hi > walkHi) {
 		panic(fmt.Sprintf("c04: instant %d outside the walked range of the zone tables", t))
 	}
 	init, _, _ := z.lookup(lo)
